@@ -32,9 +32,50 @@ def check(run, tier):
     sib = c08.attr_then_commit(run, quick)
     E.judge(run, sib, only=ONLY, name="c13attr")
     traces += sib
+    lt = locate_then_idless(quick)
+    E.judge(run, lt, only=ONLY, name="c13loc")
+    traces += lt
     E.summarise(run, traces)
     crypto_grid(run, quick)
 
+
+
+def locate_then_idless(quick):
+    """Batches [Locate matching 0 / 1 / 2 objects, an item WITHOUT identifier]: whatever Locate leaves behind for the rest
+    of the batch, the identifier-less item ends in a specific answer."""
+    from .. import engdrv as D, engtrace as T
+    sym = lambda name: {"otype": "SymmetricKey", "attrs": [{"name": "Cryptographic Algorithm", "v": "AES"}, {"name": "Cryptographic Length", "v": 128},
+                                                           {"name": "Cryptographic Usage Mask", "v": ["ENCRYPT"]}, {"name": "Name", "idx": 0, "v": name}]}
+    later = [("Get", {"uid": 0}), ("GetAttributes", {"uid": 0, "names": []}), ("GetAttributeList", {"uid": 0}), ("Activate", {"uid": 0}),
+             ("Destroy", {"uid": 0}), ("Revoke", {"uid": 0, "code": "KEY_COMPROMISE"}),
+             ("ModifyAttribute", {"uid": 0, "attr": {"name": "Name", "idx": 0, "v": "zz"}})]
+    traces = []
+    drv = D.EngineDriver(intern=E.new_interner())
+    try:
+        for nm in ("one", "two", "two"):
+            drv.request(D.one("Create", sym(nm)))
+        snap = drv.db + ".loc"
+        drv.snapshot(snap)
+        k = 0
+        for fname in ("one", "two", "none"):
+            for op, p in later:
+                for ver in ([(1, 2)] if quick else [(1, 0), (1, 2), (2, 0)]):
+                    k += 1
+                    drv.load_snapshot(snap)
+                    rec = T.Recorder(drv, "loc%d" % k)
+                    q = dict(p)
+                    if op == "ModifyAttribute" and ver >= (2, 0):
+                        q = {"uid": 0, "cur": {"name": "Name", "v": fname}, "new": {"name": "Name", "v": "zz"}}
+                    rec.request({"user": "alice", "groups": None, "ver": list(ver), "opt": "Continue", "items": [
+                        {"op": "Locate", "bid": "a", "p": {"filters": [{"name": "Name", "idx": 0, "v": fname}], "offset": -1, "max": -1}},
+                        {"op": op, "bid": "b", "p": q}]})
+                    rec.close()
+                    tr = rec.trace()
+                    tr["raw"] = rec.raw
+                    traces.append(tr)
+    finally:
+        drv.close()
+    return traces
 
 
 class _Relabel(object):
